@@ -69,6 +69,11 @@ def one_case(args):
     ab = r.abnormal()
     if ab:
         return bad("abnormal end: %s" % ab)
+    if npk == 0:
+        # nothing to visit: the tool has to end normally without showing or writing any packet
+        if obs.parse_rdh_view(r.stdout) or (r.out_file or b""):
+            return bad("empty input: rows or output produced from an empty input")
+        return out
     if mode == "view_rdh":
         rows = obs.parse_rdh_view(r.stdout)
         out["events"] = len(rows)
